@@ -1,3 +1,4 @@
+import Oidc.Proofs.CodeConfig
 import Oidc.Proofs.CodeHandler
 import Oidc.Proofs.CodeStrings
 import Oidc.Shapes
@@ -137,5 +138,14 @@ open Oidc.Generated Oidc.CodeRefine in
 theorem code_origin (t : Go.Inst) (q : RawReq) :
     Code.TraefikOidc_determineScheme t (goReq q) ++ "://".toList ++ Code.TraefikOidc_determineHost t (goReq q) = (digest q).base := by
   rw [determineScheme_refines, determineHost_refines]; rfl
+
+
+/-! ### the configuration gate, translated from settings.go on every run -/
+
+/-- the post-logout target of an accepted configuration is empty, `/`, an https URL or a path; the callback path begins with `/` -/
+theorem code_validated_redirect_targets (c : Go.Config) (h : Oidc.Generated.Code.Config_Validate c = none) :
+    (c.PostLogoutRedirectURI = [] ∨ c.PostLogoutRedirectURI = ['/'] ∨ c.isValidSecureURL c.PostLogoutRedirectURI = true ∨
+      Go.hasPrefix c.PostLogoutRedirectURI ['/'] = true) ∧ Go.hasPrefix c.CallbackURL ['/'] = true :=
+  ⟨(Oidc.CodeConfig.Validate_none c h).postLogout, (Oidc.CodeConfig.Validate_none c h).callback⟩
 
 end Oidc.Props.C15
